@@ -292,8 +292,9 @@ def id_problems(tree, root):
             if len(e) == 0 and mml.local(e.tag) in TOKEN_TAGS:
                 out_leaves.setdefault((e.text or "").strip(), []).append(e)
         for text, ns in in_texts.items():
-            if len(ns) != 1 or ns[0] is None or not text or len(text) > 12 or not text.isalnum():
-                continue        # (primes, dots, dashes ... are merged into other characters that can coincide with another token: letters and digits only)
+            if len(ns) != 1 or ns[0] is None or not text or len(text) > 12 or not (text.isalnum() or (len(text) >= 3 and text[0] in "([{" and text[-1] in ")]}" and text[1:-1].isalnum())):
+                continue        # (primes, dots, dashes ... are merged into other characters that can coincide with another token: letters and digits
+                                #  only, plus bracketed words such as the state symbols '(g)', '(aq)' that are split into a row)
             n = ns[0]
             i = n.attrs.get("id")
             if i is None or i in by_id:
@@ -301,6 +302,13 @@ def id_problems(tree, root):
             if any(o != text and o and (o in text or text in o) for o in in_texts):
                 continue        # a piece of another token that is split, or the result of merging other tokens, could be this very text
             cands = out_leaves.get(text, [])
+            if not cands and len(text) >= 3 and not text.isalnum():
+                # a token that was SPLIT into a row of its pieces ('(g)' -> ( g )): the row whose leaves spell exactly the token stands for it
+                rows = [e for e in elems if len(e) >= 2 and all(len(k) == 0 and k.get("data-changed") != "added" for k in e) and "".join((k.text or "") for k in e) == text]
+                if len(rows) == 1:
+                    out.append(("author-id-lost", "author id %r of <%s>%s</%s> is gone although the token came back split into the row %s (now id %r)" % (
+                        i, n.tag, text[:20], n.tag, "".join("<%s>" % mml.local(k.tag) for k in rows[0]), rows[0].get("id"))))
+                continue
             if len(cands) == 1 and mml.local(cands[0].tag) == n.tag:
                 if cands[0].get("data-changed") in ("added", "from_mfenced") or cands[0].get("data-added") is not None or text in "\u2061\u2062\u2063\u2064":
                     continue        # a token the library created (implied operator, fence of an mfenced, placeholder): not the author's token
